@@ -33,7 +33,8 @@ L['C01'] = dict(modules=['Schc.Properties.C01'], level='proof', technique='Lean 
               T('C01_ipv4_udp_compute', 'full', 'IPv4/UDP(/anything) packets with valid total length, header checksum, UDP length, UDP checksum: round trip with any subset of the four computed'),
               T('C01_sctp_compute', 'full', 'SCTP packets with a valid CRC-32c: round trip with the checksum computed'),
               T('C01_unparser_roundtrip', 'full', 'decompress with an unparser returns the concatenation of what PacketParser.unparse makes of the parsed fields + payload (any unparser; lossless pairings, no compute)'),
-              T('C01_end_to_end', 'full', 'from the bytes on the wire: every factory stack, every buffer its parser accepts, manager compress then decompress returns the buffer (C07 joined with C01_manager)')],
+              T('C01_end_to_end', 'full', 'from the bytes on the wire: every factory stack, every buffer its parser accepts, manager compress then decompress returns the buffer (C07 joined with C01_manager)'),
+              T('C01_end_to_end_stack', 'full', 'end to end for ANY stack of header parsers without a semantic CoAP parser')],
     level_text='Proved over the model for all packets/rules/rule sets under the stated hypotheses: fields+payload spell the raw packet (C07), bare functions without the direction argument: descriptors all apply to the packet direction; with the argument (C18_roundtrip, C01_manager): any rule, pairings equal/not-sent, ignore/value-sent, MSB/LSB, match-mapping/mapping-sent with Fits. Compute fields: C01_roundtrip_compute reduces the round trip to the compute functions regenerating the elided values, and C01_ipv6_udp_compute / C01_ipv4_udp_compute discharge that for the IPv6/UDP and IPv4/UDP stacks (any subset of the computable fields, valid packets; concrete valid packets are kernel-checked examples). C01_sctp_compute does the same for the SCTP checksum. So every registered compute function is covered at its stack position. C01_end_to_end starts from the bytes on the wire (parser of any factory stack, manager compress, manager decompress). The path with an unparser (packets parsed with CoAP options in semantic mode) is C01_unparser_roundtrip and, joined with the parsers, C19_stack_roundtrip / C19_stack_roundtrip_compute / C19_stack_roundtrip_compute4; three genuine defects on that path were repaired in /repo (b58412f, 858b849, d76d13d).')
 L['C04'] = dict(modules=['Schc.Properties.C04'], level='proof', technique='Lean 4 theorem: matcher = filter by the declarative applicability predicate',
     theorems=[T('C04_match', 'full', 'match_packet_descriptor = rules.filter Spec.applicable (soundness, completeness, order)'),
@@ -93,6 +94,7 @@ L['C20'] = dict(modules=['Schc.Properties.C20'], level='proof', technique='Lean 
 L['C07'] = dict(modules=['Schc.Properties.C07'], level='proof', technique='Lean 4 cursor invariants over the CoAP / SCTP walks + generated fixed layouts',
     theorems=[T('C07_header', 'full', 'every header parser, every accepted buffer: fields spell the first header-length bits; header length = total field length <= buffer length'),
               T('C07_packet', 'full', 'every parser configuration: fields ++ payload = input buffer, raw = input'),
+              T('C07_any_stack', 'full', 'tiling for every hand-built stack without a semantic CoAP parser'),
               T('C07_nocompression_reproduces', 'full', 'a no-compression rule reproduces any parsed packet')],
     level_text='Proved over the model for every buffer any parser accepts (well-formed or not): fixed layouts by a generic contiguity lemma against the tables regenerated from the source, CoAP by the cursor invariant of the option loop (incl. the payload marker and truncated tokens), SCTP by the chunk/parameter walk invariants and the post-check that a chunk type\'s fields cover the chunk value, chaining by composition.')
 L['C08'] = dict(modules=['Schc.Properties.C08'], level='proof', technique='Lean 4: `decide` on layouts regenerated from the parsers\' AST vs RFC tables; parse-of-encode theorem for the CoAP option walk; structured-generator correspondence for SCTP walks',
@@ -114,6 +116,7 @@ L['C08'] = dict(modules=['Schc.Properties.C08'], level='proof', technique='Lean 
 L['C14'] = dict(modules=['Schc.Properties.C14'], level='proof', technique='Lean 4 totality theorems with fuel (progress lemmas for every walk) + generated registry tables',
     theorems=[T('C14_total', 'full', 'every parser configuration, every bit string: a descriptor or ParserError — no hang, no foreign exception'),
               T('C14_header', 'full', 'each header parser, with/without prediction, CoAP in both option modes'),
+              T('C14_any_stack', 'full', 'every hand-built stack of known header parsers: a descriptor or ParserError'),
               T('C14_coap_progress', 'full', 'each CoAP option iteration consumes >= 8 bits within the buffer'),
               T('C14_sctp_progress', 'full', 'each SCTP chunk consumes >= 32 bits'),
               T('C14_registry', 'full', 'every next-protocol number chained on has a registered parser (regenerated tables)')],
@@ -167,7 +170,8 @@ L['C05'] = dict(modules=['Schc.Properties.C05'], level='proof', technique='Lean 
               T('C05_add_operands', 'full', '… and both operands of + are left unchanged'),
               T('C05_pad', 'full', 'pad(side, inplace) both modes'),
               T('C05_setitem', 'full', 'b[s:e] = v'),
-              T('C05_add_then_slice', 'full', 'composition: slicing a concatenation at the seam')],
+              T('C05_add_then_slice', 'full', 'composition: slicing a concatenation at the seam'),
+              T('C05_split_join', 'full', 'cutting a Buffer anywhere and concatenating the parts gives it back')],
     level_text='Proved for bit strings of EVERY length, both padding sides of every operand, all cut points: each operation of the byte-level model of buffer.py (same loops, masks, carries, bytes() range checks, IndexError) applied to canonical Buffers returns the canonical Buffer of the list operation, and the operand post-states are the operands. The byte-level model is tied to buffer.py by the buf stream (every op, every byte of content/length/padding/padding_length and operand post-state compared) and the inplace flags are read from the source by the translator. Not modelled: start > stop slices (negative length) and step slices, which the property excludes.')
 
 L['C06'] = dict(modules=['Schc.Properties.C06'], level='proof', technique='Lean 4 refinement of the byte-level Buffer model (_shift_left/_shift_right, & | ^ ~, value, chunks) to bit lists',
@@ -177,7 +181,8 @@ L['C06'] = dict(modules=['Schc.Properties.C06'], level='proof', technique='Lean 
               T('C06_and', 'full', '& over equal lengths, ValueError otherwise (operand preservation: C16_pure_and)'), T('C06_or', 'full', '|'), T('C06_xor', 'full', '^'),
               T('C06_invert', 'full', '~'), T('C06_value', 'full', 'value() is the big-endian integer (operand preservation: C16_pure_value)'),
               T('C06_chunks', 'full', 'chunks(n, padding) for every n >= 1'), T('C06_chunks_pieces', 'full', 'closed form of the pieces'),
-              T('C06_chunks_zero', 'full', 'chunks(0) raises')],
+              T('C06_chunks_zero', 'full', 'chunks(0) raises'),
+              T('C06_chunks_tile', 'full', 'without padding the pieces concatenate to the Buffer, every chunk size'), T('C06_chunks_padded', 'full', 'with padding every piece has n bits and the pieces spell the bits followed by zeros'), T('C06_invert_twice', 'full', '~~b = b through the byte-level model'), T('C06_shift_left_right', 'full', 'shift left by s then right by s is the identity')],
     level_text='Proved for bit strings of every length, both sides, every shift amount (any integer) and every chunk size. Tie as for C05. Python ints are unbounded Nat in the model (exact).')
 
 L['C19'] = dict(modules=['Schc.Properties.C19'], level='proof', technique='Lean 4 lockstep simulation of the two option walks of _parse_options, inversion of CoAPParser.unparse (tables read from coap.py), and the substring dispatch of PacketParser.unparse reduced to one segment per header parser (id facts decided on regenerated tables; a string lemma for OPTION_UNKNOWN(n), every n)',
@@ -191,6 +196,7 @@ L['C19'] = dict(modules=['Schc.Properties.C19'], level='proof', technique='Lean 
               T('C19_stack_roundtrip', 'full', 'parse with the semantic stack, compress with any fitting lossless rule, decompress with the parser as unparser: the packet, bit for bit'),
               T('C19_stack_roundtrip_compute', 'full', 'the same with IPv6 payload length / UDP length / UDP checksum as compute fields (any subset): un-parse first, then compute over the re-encoded options; valid packets come back bit for bit'),
               T('C19_unparse_identity', 'full', 'any stack without a semantic CoAP parser — header classes listed twice or again after another header, prediction: PacketParser.unparse is the identity (every field once, in order)'),
+              T('C19_unparse_runs', 'full', 'the dispatch of PacketParser.unparse in general: any number of parsers, classes repeated or not, either CoAP mode — a field list made of one run per parser is un-parsed run by run, the rest kept'), T('C19_recipe_rules_fit', 'full', 'every rule the uroundtrip stream derives from a parsed packet (any recipe string) satisfies the hypotheses of the round-trip theorems'),
               T('C19_stack_roundtrip_compute4', 'full', 'the IPv4 variant: total length, header checksum, UDP length, UDP checksum as compute fields (any subset)')],
     level_text='Proved for messages of any length with any number of options, any option numbers (known and unknown to the library), any deltas and value lengths, with and without payload, under the hypothesis that no delta/length nibble is the reserved value 15 (RFC 7252 cannot encode such options; an example shows the hypothesis is needed). Values compared as (field id, Buffer) pairs, exactly. Trusted/abstracted: Python re.match and int() on the rendered OPTION_UNKNOWN(n) id are modelled by unknownOptionNumber (checked by the parse stream on unknown options); str(Enum) rendering is read from the running interpreter by the translator. PacketParser.unparse dispatch (parser.py) is covered by correspondence, not by this theorem.')
 for k in L:
